@@ -5,7 +5,7 @@
 import glob, json, os, re, shutil, subprocess, sys
 
 SEEDED = "/verif/seeded"
-EXTRA = {"C06-1": ["C05"], "C03-1": ["C04"], "C05-1": ["C06"], "C02-4": ["C04"], "C04-4": ["C07"], "C06-3": ["C05"], "C06-4": ["C05"], "C01-5": ["C03", "C04"], "C11-4": ["C12"]}  # other properties' checks that are also expected to notice
+EXTRA = {"C06-1": ["C05"], "C03-1": ["C04"], "C05-1": ["C06"], "C02-4": ["C04"], "C04-4": ["C07"], "C06-3": ["C05"], "C06-4": ["C05"], "C01-5": ["C03", "C04"], "C11-4": ["C12"], "C06-5": ["C05"]}  # other properties' checks that are also expected to notice
 
 
 def collect():
